@@ -397,7 +397,7 @@ def r_pred_wiring(model, rep):
     if len(rets) != 1:
         ok, msg = False, "expected a single return"
     else:
-        v = rets[0].value
+        v = T.phi_form(rets[0].value)
         ga = ("binop", "%", ("const", "%s-%s"), ("tuple", (short, version)))
         full = ("binop", "%", ("const", "%s-%s-%s"), ("tuple", (short, version, typ)))
         alts = list(v[1]) if v[0] == "phi" else [v]
